@@ -198,6 +198,18 @@ CHECKS["C20"] = dict(
     note="Finite-choice. Known finding: partial decode of a substitution-group member (region subtracted). Lazy resources outside.",
     ref="DESIGN.md 5/C20")
 
+CHECKS["C06"] = dict(
+    technique=TECH + " - iter_errors()/decode()/XMLResource.iter() on the same document text loaded lazily (depth 1) and fully, document "
+                     "shape chosen by symbolic indices (finite choice), differential comparison",
+    category="model_checking",
+    text="For every document of the bound (1-2 items quick, 3 thorough; per item key attribute, keyref attribute, 0-2 children with valid/"
+         "invalid text, optional inner xmlns declaration) lazy depth-1 processing yields the same (reason, path) error sequence as the loaded "
+         "document, the same decoded data after consuming the streamed children, and iteration yields the same tags, texts and in-scope "
+         "namespaces in document order - outside three recorded findings.",
+    note="Finite-choice. Real parser (expat) on the generated text. Known findings (open): reversed sibling order of lazy iter(), identity "
+         "errors located at the last child in lazy mode, lazy decode() not reporting identity errors; each subtracted by a region predicate.",
+    ref="DESIGN.md 5/C06")
+
 NOT_APPLICABLE = {
     "C18": "quantifies over thread interleavings; no engine of this family here executes Python threads symbolically (CrossHair is "
            "single-threaded); see DESIGN.md section 6",
